@@ -167,6 +167,10 @@ def run_config(cfg, res):
   ports = {n: 2004 + i for i, n in enumerate(nodes)}
   r = gen.rng(cfg['seed'], 'C06names')
   names = [gen.metric_name(r) for _ in range(200)]
+  # names as clients really send them: empty path elements (an empty prefix or host name), tags, odd characters - the ring is
+  # asked about the name as received, byte for byte
+  names = ['.cpu.load', 'servers..cpu.load', 'a...b', '..a.b', 'a.b.', '.', 'cpu.load;dc=a;host=b', 'cpu.load;host=b;dc=a', 'Cpu.Load', ' cpu.load',
+            'cpu.load ', 'cpu..load;t=.x', '\ufeffcpu.load', 'a/b.c', '~a.b'] + names
 
   from carbon.util import parseDestinations
 
